@@ -506,6 +506,35 @@ func $NB(a int) int {
 	f := func(x int) int { return $NInc(x) }
 	return f(a)
 }`, entries: []*Entry{callEntry("$NB", 1, nil)}},
+	{name: "eta-args-permuted-or-repeated", tags: []string{"eta-shape"}, decls: byGen + `
+func $NSub(x, y int) int { return x*10 - y }
+
+func $NSub3(x, y, z int) int { return x*100 + y*10 - z }
+
+var $NFlip = func(p, q int) int { return $NSub(q, p) }
+
+func $NB(a int) int {
+	same := func(p, q int) int { return $NSub(p, q) }
+	twice := func(p, q int) int { return $NSub(p, p) }
+	rot := func(p, q, r int) int { return $NSub3(q, r, p) }
+	shadow := func(p, q int) int {
+		return func(q, p int) int { return $NSub(p, q) }(p, q)
+	}
+	return same(a, 1) + 7*$NFlip(a, 2) + 13*twice(a, 3) + 17*rot(a, 1, 2) + 19*shadow(a, 5)
+}`, entries: []*Entry{callEntry("$NB", 1, nil)}},
+	{name: "eta-fewer-or-more-args", tags: []string{"eta-shape"}, decls: byGen + `
+func $NAdd(x, y int) int { return x + 2*y }
+
+func $NOne(x int) int { return x + 1 }
+
+func $NB(a int) int {
+	k := 5
+	part := func(p int) int { return $NAdd(p, k) }
+	drop := func(p, q int) int { return $NOne(p) }
+	cnst := func(p int) int { return $NOne(3) }
+	k = 9
+	return part(a) + 3*drop(a, 100) + 5*cnst(a)
+}`, entries: []*Entry{callEntry("$NB", 1, nil)}},
 	{name: "eta-in-generator-body", tags: []string{"eta-shape"}, decls: `
 $GEN{$NGen(a int)}{int}{
 	f := func(x int) int { return x + 1 }
